@@ -80,7 +80,9 @@ def pick_segment(st, r, p_undefined=0.15):
     segs = st.model.segment_names()
     if segs and not gen.chance(r, p_undefined):
         return gen.choice(r, segs)
-    return gen.choice(r, POOL["S"])
+    taken = set(st.model.names()) - set(segs)
+    cands = [n for n in POOL["S"] if n not in taken]
+    return gen.choice(r, cands or segs or POOL["S"])
 
 
 def new_segment(st, r, name, tags=True):
